@@ -95,6 +95,16 @@ CLAIMED = {
    note="Trusted: Lean kernel for the stamping statements; rustc is the oracle for diagnostic placement; fault list is finite.",
    technique="Lean 4 proof of context-free span stamping + token-span T2 + rustc JSON diagnostics on a fault x position matrix",
    design="5/C20"),
+ "C13": dict(
+   text="Partial. Proved (Lean 4 kernel): C13_expand_no_panic - the code generator's panic sites (root_field_name's panic!/expect, tail_operations' expect, syn::Index::from's assertion) are unreachable for every pattern whose field operations have the shape the parser produces (mutual induction over the expansion model); T2 compares the model's panic prediction with the real generator on every input. The parser's own totality (termination, no panic, full consumption, located errors) is NOT yet a theorem: it is tied differentially (T1) - the real parser and generator run in process under catch_unwind on every repository invocation, edge patterns, generated patterns, every truncation and single-token deletion / duplication / swap / foreign insertion of them and random token sequences (14k inputs in the quick tier); any panic is a violation with the input as replay. A defect found this way (tuple index >= u32::MAX) was repaired.",
+   note="Trusted: Lean kernel for the expansion half; syn's own parsers; the parser is covered by differential execution only (its Lean model with oracle tables for syn is the next growth item); stack exhaustion is not explored.",
+   technique="Lean 4 proof that expansion panic sites are unreachable on parser-shaped ASTs + in-process mutation differential of the real parser (T1)",
+   design="5/C13"),
+ "C15": dict(
+   text="Partial. Proved (Lean 4 kernel): C15_slice_multi_rest (a slice with more than one `..` has no verdict: the native pattern is rejected) on top of C13's expansion theorem. The parser's rejection of the listed malformed classes is NOT yet a theorem: every class (`..` not last in struct / set / map, index differing from position, closure arity, `=` followed by neither `=` nor `~`, operator without operand, trailing tokens, wildcard struct without `..`, missing pattern, malformed field operations) is instantiated by construction in 8 positions and must be rejected by the real parser, with well-formed controls in the same positions; token retention (every identifier of an accepted input reappears in the parsed pattern) is checked on the whole T1 input set. Open finding: `path()` drops its empty parentheses.",
+   note="Trusted: Lean kernel for the AST-level statement; the malformed classes are enumerated by hand (checks/c15.py); the parser model is a growth item.",
+   technique="Lean 4 proof at AST level + by-construction malformed-class enumeration against the real parser (T1)",
+   design="5/C15"),
 }
 
 def main():
